@@ -399,7 +399,29 @@ def rule_T9(text):
     return text, fired
 
 
-RULES = {'T1': rule_T1, 'T2': rule_T2, 'T3': rule_T3, 'T5': rule_T5, 'T9': rule_T9, 'T10': rule_T10}
+def rule_T11(text):
+    """`SRC.into_iter().map(|x| EXPR).collect::<HashMap<_, _>>()` -> the loop it computes:
+    every element of SRC, in order, is mapped to a (key, value) pair that is inserted into a fresh map"""
+    mask = code_mask(text)
+    m = re.search(r'(?P<src>[\w\.]+)\s*\.into_iter\s*\(\s*\)\s*\.map\s*\(\s*\|\s*(?P<var>\w+)\s*\|', mask)
+    if not m:
+        return text, 0
+    op = mask.index('(', mask.index('.map', m.start()))
+    cp = match_brace(mask, op, '(', ')')
+    expr = text[m.end():cp].strip()
+    tail = re.match(r'\s*\.collect\s*::\s*<\s*HashMap\s*<\s*_\s*,\s*_\s*>\s*>\s*\(\s*\)', mask[cp + 1:])
+    if not tail:
+        raise ExtractError('T11: `.collect::<HashMap<_, _>>()` expected after the map adapter')
+    end = cp + 1 + tail.end()
+    ind = re.match(r'[ \t]*', text[text.rfind('\n', 0, m.start()) + 1:]).group(0)
+    new = ('{\n%s    let verif_src = %s;\n%s    let mut verif_out = HashMap::new();\n%s    let mut verif_i: usize = 0;\n'
+           '%s    while verif_i < verif_src.len() {\n%s        let %s = verif_src[verif_i];\n%s        let verif_e = %s;\n'
+           '%s        verif_out.insert(verif_e.0, verif_e.1);\n%s        verif_i += 1;\n%s    }\n%s    verif_out\n%s}'
+           % (ind, m.group('src'), ind, ind, ind, ind, m.group('var'), ind, expr, ind, ind, ind, ind, ind))
+    return text[:m.start()] + new + text[end:], 1
+
+
+RULES = {'T1': rule_T1, 'T2': rule_T2, 'T3': rule_T3, 'T5': rule_T5, 'T9': rule_T9, 'T10': rule_T10, 'T11': rule_T11}
 
 
 def rule_T6(body, callees, arg):
